@@ -122,7 +122,7 @@ impl World {
             .ttl_tick_duration(Duration::from_millis(1)).build();
         let cache = Arc::new(CacheD::new(config));
         for role in ["worker", "sweeper", "consumer"] {
-            if verif::wait_settled(role, 0, TIMEOUT).is_none() { return Err(format!("{} did not start", role)); }
+            if crate::wait_settled_ticks(role, 0).is_none() { return Err(format!("{} did not start", role)); }
         }
         let mut slots = Vec::new();
         let mut threads = Vec::new();
@@ -142,7 +142,7 @@ impl World {
                     } else { std::thread::yield_now(); }
                 }
             }).unwrap());
-            if verif::wait_settled(&role, 0, TIMEOUT).is_none() { return Err(format!("{} did not park", role)); }
+            if crate::wait_settled_ticks(&role, 0).is_none() { return Err(format!("{} did not park", role)); }
             slots.push(slot);
         }
         let seeds = cache.verif_snapshot().sketch.seeds;
@@ -213,7 +213,7 @@ impl World {
     fn act(&mut self, role: &str) -> Result<Vec<String>, String> {
         let _ = verif::drain_taps();
         let seq = verif::grant(role).ok_or_else(|| format!("{} is not parked", role))?;
-        verif::wait_settled(role, seq, TIMEOUT).ok_or_else(|| format!("{} did not reach its next schedule point after leaving {}", role, Self::at(role)))?;
+        crate::wait_settled_ticks(role, seq).ok_or_else(|| format!("{} did not reach its next schedule point after leaving {}", role, Self::at(role)))?;
         Ok(verif::drain_taps())
     }
 
@@ -306,18 +306,13 @@ impl World {
         let World { cache, threads, acks, .. } = self;
         let done = Arc::new(AtomicBool::new(false));
         { let (cache, done) = (cache.clone(), done.clone()); std::thread::spawn(move || { cache.shutdown(); done.store(true, Ordering::SeqCst); }); }
-        let deadline = std::time::Instant::now() + TIMEOUT;
-        while !done.load(Ordering::SeqCst) && std::time::Instant::now() < deadline { std::thread::sleep(Duration::from_micros(200)); }
+        crate::wait_until_ticks(|| done.load(Ordering::SeqCst));
         if !done.load(Ordering::SeqCst) { return Err("shutdown() at the end of the case did not return".to_string()); }
         for thread in threads { let _ = thread.join(); }
         drop(acks);
         drop(cache);
         for role in ["worker", "sweeper", "consumer"] {
-            let deadline = std::time::Instant::now() + TIMEOUT;
-            while verif::view(role).map(|view| !view.finished).unwrap_or(false) {
-                if std::time::Instant::now() > deadline { return Err(format!("{} did not exit", role)); }
-                std::thread::sleep(Duration::from_micros(200));
-            }
+            if !crate::wait_until_ticks(|| !verif::view(role).map(|view| !view.finished).unwrap_or(false)) { return Err(format!("{} did not exit", role)); }
         }
         Ok(())
     }
